@@ -94,7 +94,7 @@ func checkClient(c clientCase) (string, error) {
 	if done > 0 {
 		want = done
 	}
-	rec := collect(cp, base, ip, port, want)
+	rec := collect(cp, base, ip, port, want, true)
 	rc.mu.Lock()
 	sent := append([]byte(nil), rc.sent...)
 	rc.mu.Unlock()
@@ -107,6 +107,7 @@ func checkClient(c clientCase) (string, error) {
 		outcome = "events-missing-after-handshake"
 	}
 	if len(rec.digests) == 0 {
+		// compare reports it: the hello of every connection made here was written completely
 		outcome = "nothing-compared/" + outcome
 	}
 	return outcome, compare("hello of Go's crypto/tls client", ref, rec)
@@ -143,7 +144,7 @@ func genClient(t *rapid.T) clientCase {
 func TestClient(t *testing.T) {
 	const name = "TestClient"
 	r := vlib.Open(prop)
-	r.Rule("completed handshakes: Go's crypto/tls client (TLS1.0..1.2, drawn suites / curves / SNI / ALPN / tickets, 1..3 GET requests) against the https service; reference JA3 of the bytes the client wrote == https.ja3-digest of every http request event (non-trivial: the hello carries extension types the vendored stack does not know)")
+	r.Rule("completed handshakes: Go's crypto/tls client (TLS1.0..1.2, drawn suites / curves / SNI / ALPN / tickets, 1..3 GET requests) against the https service; reference JA3 of the bytes the client wrote == https.ja3-digest of every http request event, and at least one event of the connection carries the digest (and the server name when SNI was sent) (non-trivial: the hello carries extension types the vendored stack does not know)")
 	var rc clientCase
 	if vlib.ReplayCase(name, &rc) {
 		if _, err := checkClient(rc); err != nil {
